@@ -227,7 +227,7 @@ class Interp:
                 return Coro(self, fn, args, kwargs)
             return self.call_body(fn, args, kwargs)
         if isinstance(fn, SMethod):
-            return self.models.sym_method(self, fn.recv, fn.name, args, kwargs)
+            return _lower(self.models.sym_method(self, fn.recv, fn.name, args, kwargs))
         if isinstance(fn, types.MethodType):
             if isinstance(fn.__self__, logging.Logger):
                 return None
@@ -971,6 +971,15 @@ class Interp:
         v = self.eval(e.value, f)
         f.locals[e.target.id] = v
         return v
+
+
+def _lower(v):
+    """Fully concrete results of the string models are ordinary Python values again."""
+    if isinstance(v, SStr):
+        return lower_str(v)
+    if isinstance(v, list):
+        return [_lower(x) for x in v]
+    return v
 
 
 def _as_load(t):
